@@ -1,4 +1,5 @@
 import Okane.Lemmas.C05Round
+import Okane.Generated.ParamsTie
 /-!
 # C05 — documented syntax is read; formatting preserves meaning and is idempotent
 
